@@ -7,6 +7,15 @@ import (
 
 // Simple helper that will take 2 or more integers, and apply an operation
 func arithmaticHelperi(equation func(int, int) int) KeyBuilderFunction {
+	return arithmaticHelperiChecked(equation, false)
+}
+
+// Like arithmaticHelperi, for division-like operations: a zero right-hand operand yields ErrorValue
+func arithmaticHelperiNonZero(equation func(int, int) int) KeyBuilderFunction {
+	return arithmaticHelperiChecked(equation, true)
+}
+
+func arithmaticHelperiChecked(equation func(int, int) int, rejectZero bool) KeyBuilderFunction {
 	return KeyBuilderFunction(func(args []KeyBuilderStage) (KeyBuilderStage, error) {
 		if len(args) < 2 {
 			return stageErrArgRange(args, "2+")
@@ -27,6 +36,9 @@ func arithmaticHelperi(equation func(int, int) int) KeyBuilderFunction {
 				val, ok := typedArgs[i](context)
 				if !ok {
 					return ErrorNum
+				}
+				if rejectZero && val == 0 {
+					return ErrorValue
 				}
 				final = equation(final, val)
 			}
